@@ -282,6 +282,12 @@ def run(chk, repo, tier):
     # constructors: what units a quantity carries (a bundle of quantities
     # must agree on one dimension) is decided here
     from .. import reviewed as _rv
+    # the guards build their UnitsError message from str(units): the text
+    # must be constructible for every exponent vector
+    for q in ('FundamentalUnits.__str__', 'FundamentalUnits.__repr__'):
+        _rv.check(chk, 'R11.4', repo, QTY, q,
+                  '%s (used in every UnitsError message) is unchanged in '
+                  'normal form from its reviewed reference' % q)
     for q in ('ArrayQuantity.__new__', 'ArrayQuantity.__array_finalize__',
               'ArrayQuantity.__array_wrap__', 'ArrayQuantity.__getitem__',
               'Quantity.__init__'):
